@@ -197,6 +197,10 @@ func judgeCoff(cc coffCase, rs []*core.Result, wantC08, wantC09 bool) core.Verdi
 			}
 		}
 	}
+	if wantC09 && len(f.Problems) > 0 {
+		// an object that cannot be read back carries neither the code nor the symbols
+		add("text", "object_unreadable", strings.Join(f.Problems, "; "))
+	}
 	if wantC09 && len(f.Problems) == 0 && len(f.Sections) >= 1 {
 		text := f.sectionData(b, 0)
 		if !bytes.Equal(text, rf.Out) {
